@@ -310,7 +310,16 @@ def replay_c19(state):
                 outs.append(codec.py_to_tagged(val))
             except Exception:  # noqa
                 skipped += 1
-        obs["wrappers"].append(dict(how=how, annot=text_annot, ty=ty, reqd=reqd, outs=outs, skipped=skipped))
+        cause = "other"
+        try:
+            from statham.schema.elements import AllOf
+            for sub in drive.walk_elements(prop.element):
+                if isinstance(sub, AllOf) and sub.annotation != sub.elements[0].annotation:
+                    cause = "allof-annotation-is-not-its-first-member's"
+        except Exception:  # noqa
+            pass
+        obs["wrappers"].append(dict(how=how, annot=text_annot, ty=ty, reqd=reqd, outs=outs, skipped=skipped,
+                                    cause=cause))
     return obs
 
 
@@ -399,8 +408,8 @@ def run(pid, tier, replay_file=None):
                     continue
                 nontrivial.add((w["annot"], w["how"]))
                 outs = "<<" + ", ".join(tlajson_to_tla(x) for x in w["outs"]) + ">>"
-                add_event(si, ("wrap", wi), '[id |-> @ID@, p |-> "C19", ty |-> %s, reqd |-> %s, outs |-> %s]'
-                          % (tlajson_to_tla(w["ty"]), B(w["reqd"]), outs))
+                add_event(si, ("wrap", wi), '[id |-> @ID@, p |-> "C19", doc |-> %s, ty |-> %s, reqd |-> %s, outs |-> %s]'
+                          % (tlajson_to_tla(st["doc"]), tlajson_to_tla(w["ty"]), B(w["reqd"]), outs))
 
     adj = dict(events=0, tlc_states=0)
     if events:
@@ -429,7 +438,7 @@ def run(pid, tier, replay_file=None):
                               dict(state=st, observed={k: v for k, v in o.items() if k not in ('e', 'r')}))
             else:
                 w = ob["wrappers"][idx]
-                rep.violation(("C19", clause, _annot_shape(w["ty"])),
+                rep.violation(("C19", clause, w.get("cause", "other")),
                               f"{clause}: schema {sjson(st)} under {w['how']} is annotated {w['annot']} "
                               f"but holds {[_short(x) for x in w['outs'] if True][:6]}",
                               dict(state=st, observed=dict(how=w["how"], annot=w["annot"], reqd=w["reqd"])))
